@@ -1,6 +1,561 @@
 package main
 
-// tryExecutableReplay turns a solver model into a Go test run against the real code (see replay_gen.go).
+// Executable replay of a refuted obligation on the real code.
+//
+// Scope (stated in DESIGN.md): functions and methods whose parameters are integers and booleans, with a receiver (if any)
+// that is a pointer to a struct of which the scalar fields (and the scalar fields of structs it points to, one level) are
+// set from the model. Obligation kinds: post (the clause is translated to Go and evaluated after the call) and safe (the
+// call is expected to panic). Everything else keeps the textual replay and the words no-failing-input-found.
+//
+// The test is injected into the real package with `go test -overlay`; it is kept as the replay file only if running it on
+// /repo's working tree reproduces the violation.
+
+import (
+	"encoding/json"
+	"fmt"
+	"go/types"
+	"math/big"
+	"os"
+	"os/exec"
+	"path/filepath"
+	"strings"
+
+	"golang.org/x/tools/go/ssa"
+)
+
+type replayInfo struct {
+	fn     *ssa.Function
+	clause Expr            // post obligations: the ensures clause
+	params map[string]Term // parameter name -> entry term
+	specPkg string
+}
+
 func tryExecutableReplay(prog *Program, sp *Specs, prop string, o *Obligation, base string) (string, bool) {
-	return "", false
+	ri := o.replay
+	if ri == nil || ri.fn == nil || o.Result == nil || o.Result.Status == "unsat" {
+		return "", false
+	}
+	if o.Kind != "post" && o.Kind != "safe" {
+		return "", false
+	}
+	fn := ri.fn
+	if fn.Parent() != nil || fn.Pkg == nil {
+		return "", false
+	}
+	g := &replayGen{prog: prog, sp: sp, o: o, ri: ri, fn: fn, pkg: fn.Pkg.Pkg}
+	src, ok := g.build()
+	if !ok {
+		return "", false
+	}
+	// run it on the real code
+	dir, err := os.MkdirTemp("", "govc-replay-")
+	if err != nil {
+		return "", false
+	}
+	defer os.RemoveAll(dir)
+	testFile := filepath.Join(dir, "zz_govc_replay_test.go")
+	os.WriteFile(testFile, []byte(src), 0o644)
+	pkgDir := filepath.Dir(prog.Fset.Position(fn.Pos()).Filename)
+	dest := filepath.Join(pkgDir, "zz_govc_replay_test.go")
+	ov, _ := json.Marshal(map[string]map[string]string{"Replace": {dest: testFile}})
+	ovPath := filepath.Join(dir, "ov.json")
+	os.WriteFile(ovPath, ov, 0o644)
+	cmd := exec.Command("go", "test", "-overlay", ovPath, "-vet=off", "-count=1", "-timeout", "60s", "-run", "^TestGovcReplay$", ".")
+	cmd.Dir = pkgDir
+	cmd.Env = append(os.Environ(), "GOFLAGS=-mod=mod", "GOPROXY=off", "GOSUMDB=off", "GOTOOLCHAIN=local")
+	out, _ := cmd.CombinedOutput()
+	if !strings.Contains(string(out), "VIOLATION-REPLAYED") {
+		return "", false
+	}
+	path := base + "_replay_test.go"
+	header := fmt.Sprintf("// Replay of %s (property %s) on the real code: generated from the solver's model, confirmed by running it.\n// Run: copy (or -overlay) this file into %s as zz_govc_replay_test.go and run `go test -vet=off -run TestGovcReplay .` there.\n// Output when it was generated:\n//   %s\n",
+		o.Name, prop, strings.TrimPrefix(pkgDir, repoDir+"/"), strings.ReplaceAll(strings.TrimSpace(firstLines(string(out), 6)), "\n", "\n//   "))
+	os.WriteFile(path, []byte(header+src), 0o644)
+	return path, true
+}
+
+func firstLines(s string, n int) string {
+	ls := strings.Split(s, "\n")
+	if len(ls) > n {
+		ls = ls[:n]
+	}
+	return strings.Join(ls, "\n")
+}
+
+type replayGen struct {
+	prog *Program
+	sp   *Specs
+	o    *Obligation
+	ri   *replayInfo
+	fn   *ssa.Function
+	pkg  *types.Package
+	ask  []string          // terms to evaluate in the model
+	vals map[string]string // term -> value text
+	olds []string          // Go statements computing old(...) values
+	nold int
+	fail bool
+}
+
+func basicScalar(t types.Type) (isInt, isBool bool) {
+	b, ok := t.Underlying().(*types.Basic)
+	if !ok {
+		return false, false
+	}
+	if b.Info()&types.IsInteger != 0 {
+		return true, false
+	}
+	if b.Info()&types.IsBoolean != 0 {
+		return false, true
+	}
+	return false, false
+}
+
+func (g *replayGen) build() (string, bool) {
+	sig := g.fn.Signature
+	var recvName string
+	var recvStruct *types.Struct
+	var recvNamed types.Type
+	params := g.fn.Params
+	start := 0
+	if sig.Recv() != nil {
+		if len(params) == 0 {
+			return "", false
+		}
+		recvName = params[0].Name()
+		pt, ok := params[0].Type().Underlying().(*types.Pointer)
+		if !ok {
+			return "", false
+		}
+		st, ok := pt.Elem().Underlying().(*types.Struct)
+		if !ok {
+			return "", false
+		}
+		recvStruct, recvNamed = st, pt.Elem()
+		start = 1
+	}
+	for _, p := range params[start:] {
+		if i, b := basicScalar(p.Type()); !i && !b {
+			return "", false
+		}
+	}
+	// terms to read from the model
+	type fieldSet struct {
+		path string // Go path from the receiver, e.g. ".commonFields.MessageLengthLimit"
+		term string
+		typ  types.Type
+	}
+	var fields []fieldSet
+	var allocs []string // Go statements allocating pointed-to structs
+	query := g.o.Query
+	if g.o.Result.Status != "sat" {
+		// no model of the full query (quantified assumptions make the solver give up on satisfiable goals): take a model
+		// of the quantifier-free relaxation as a CANDIDATE; it only counts if the real code reproduces the violation
+		var keep []string
+		for _, ln := range strings.Split(query, "\n") {
+			if strings.Contains(ln, "(forall ") || strings.Contains(ln, "(exists ") {
+				continue
+			}
+			keep = append(keep, ln)
+		}
+		query = strings.Join(keep, "\n")
+	}
+	comp := func(st types.Type, f string) string { return "H1." + sanitize("F."+structName(st)+"."+f) }
+	if recvStruct != nil {
+		rt, ok := g.ri.params[recvName]
+		if !ok {
+			return "", false
+		}
+		for i := 0; i < recvStruct.NumFields(); i++ {
+			f := recvStruct.Field(i)
+			c := comp(recvNamed, f.Name())
+			if !strings.Contains(query, c+" ") && !strings.Contains(query, c+")") {
+				continue
+			}
+			if isI, isB := basicScalar(f.Type()); isI || isB {
+				fields = append(fields, fieldSet{"." + f.Name(), "(select " + c + " " + rt.S + ")", f.Type()})
+				continue
+			}
+			if pt, ok := f.Type().Underlying().(*types.Pointer); ok {
+				if st2, ok := pt.Elem().Underlying().(*types.Struct); ok {
+					if _, named := pt.Elem().(*types.Named); !named {
+						continue
+					}
+					inner := "(select " + c + " " + rt.S + ")"
+					used := false
+					for j := 0; j < st2.NumFields(); j++ {
+						f2 := st2.Field(j)
+						c2 := comp(pt.Elem(), f2.Name())
+						if !strings.Contains(query, c2+" ") && !strings.Contains(query, c2+")") {
+							continue
+						}
+						if isI, isB := basicScalar(f2.Type()); isI || isB {
+							fields = append(fields, fieldSet{"." + f.Name() + "." + f2.Name(), "(select " + c2 + " " + inner + ")", f2.Type()})
+							used = true
+						}
+					}
+					if used {
+						allocs = append(allocs, fmt.Sprintf("\trecv.%s = &%s{}\n", f.Name(), types.TypeString(pt.Elem(), types.RelativeTo(g.pkg))))
+					}
+				}
+			}
+		}
+	}
+	var asks []string
+	for _, p := range params[start:] {
+		t, ok := g.ri.params[p.Name()]
+		if !ok {
+			return "", false
+		}
+		asks = append(asks, t.S)
+	}
+	for _, f := range fields {
+		asks = append(asks, f.term)
+	}
+	vals, ok := evalInModel(query, asks)
+	if !ok {
+		return "", false
+	}
+	var b strings.Builder
+	fmt.Fprintf(&b, "package %s\n\nimport \"testing\"\n\n", g.pkg.Name())
+	b.WriteString("func govcIte(c bool, a, b int64) int64 {\n\tif c {\n\t\treturn a\n\t}\n\treturn b\n}\n\nvar _ = govcIte\n\n")
+	b.WriteString("func TestGovcReplay(t *testing.T) {\n")
+	fmt.Fprintf(&b, "\t// obligation: %s\n\t// clause:     %s\n", g.o.Name, strings.ReplaceAll(g.o.Text, "\n", " "))
+	lit := func(v string, t types.Type) (string, bool) {
+		isI, isB := basicScalar(t)
+		ts := types.TypeString(t, types.RelativeTo(g.pkg))
+		if isB {
+			if v == "true" || v == "false" {
+				return v, true
+			}
+			return "", false
+		}
+		if isI {
+			n, ok := parseSMTInt(v)
+			if !ok {
+				return "", false
+			}
+			lo, hi := intRange(t)
+			if n.Cmp(lo) < 0 || n.Cmp(hi) > 0 {
+				return "", false // the model uses a value the machine type cannot hold
+			}
+			// a typed variable, so that out-of-range constants are compile errors rather than silent wraps
+			return fmt.Sprintf("%s(%s)", ts, n.String()), true
+		}
+		return "", false
+	}
+	if recvStruct != nil {
+		fmt.Fprintf(&b, "\trecv := &%s{}\n", types.TypeString(recvNamed, types.RelativeTo(g.pkg)))
+		for _, a := range allocs {
+			b.WriteString(a)
+		}
+		for _, f := range fields {
+			l, ok := lit(vals[f.term], f.typ)
+			if !ok {
+				return "", false
+			}
+			fmt.Fprintf(&b, "\trecv%s = %s\n", f.path, l)
+		}
+		fmt.Fprintf(&b, "\t%s := recv\n\t_ = %s\n", recvName, recvName)
+	}
+	var argNames []string
+	for _, p := range params[start:] {
+		l, ok := lit(vals[g.ri.params[p.Name()].S], p.Type())
+		if !ok {
+			return "", false
+		}
+		fmt.Fprintf(&b, "\t%s := %s\n\t_ = %s\n", p.Name(), l, p.Name())
+		argNames = append(argNames, p.Name())
+	}
+	call := g.fn.Name() + "(" + strings.Join(argNames, ", ") + ")"
+	if recvStruct != nil {
+		call = "recv." + call
+	}
+	nres := sig.Results().Len()
+	var resNames []string
+	for i := 0; i < nres; i++ {
+		resNames = append(resNames, fmt.Sprintf("r%d", i))
+	}
+	if g.o.Kind == "safe" {
+		b.WriteString("\tdefer func() {\n\t\tif x := recover(); x != nil {\n\t\t\tt.Fatalf(\"VIOLATION-REPLAYED: the call panics: %v\", x)\n\t\t}\n\t}()\n")
+		if nres > 0 {
+			fmt.Fprintf(&b, "\t%s = %s\n", strings.Repeat("_, ", nres-1)+"_", call)
+		} else {
+			fmt.Fprintf(&b, "\t%s\n", call)
+		}
+		b.WriteString("\tt.Log(\"MODEL-NOT-REPRODUCED: no panic\")\n}\n")
+		return b.String(), true
+	}
+	// post: translate the clause
+	g.vals = vals
+	expr := g.goExpr(g.ri.clause, map[string]Expr{}, recvName, resNames)
+	if g.fail {
+		return "", false
+	}
+	for _, s := range g.olds {
+		b.WriteString(s)
+	}
+	if nres > 0 {
+		fmt.Fprintf(&b, "\t%s := %s\n", strings.Join(resNames, ", "), call)
+		for _, r := range resNames {
+			fmt.Fprintf(&b, "\t_ = %s\n", r)
+		}
+	} else {
+		fmt.Fprintf(&b, "\t%s\n", call)
+	}
+	fmt.Fprintf(&b, "\tholds := %s\n", expr)
+	var shown []string
+	for _, r := range resNames {
+		shown = append(shown, r)
+	}
+	fmt.Fprintf(&b, "\tif !holds {\n\t\tt.Fatalf(\"VIOLATION-REPLAYED: the clause is false on the real code; results: %%v\", []interface{}{%s})\n\t}\n", strings.Join(shown, ", "))
+	b.WriteString("\tt.Log(\"MODEL-NOT-REPRODUCED: the clause holds for these inputs\")\n}\n")
+	return b.String(), true
+}
+
+// goExpr translates a clause into Go. Integers are compared as int64; anything outside the supported subset sets g.fail.
+func (g *replayGen) goExpr(x Expr, subst map[string]Expr, recvName string, res []string) string {
+	if g.fail {
+		return "false"
+	}
+	switch x := x.(type) {
+	case *EInt:
+		return "int64(" + x.V.String() + ")"
+	case *EIdent:
+		if e, ok := subst[x.Name]; ok {
+			return g.goExpr(e, map[string]Expr{}, recvName, res)
+		}
+		switch x.Name {
+		case "true", "false", "nil":
+			return x.Name
+		case "result":
+			if len(res) == 1 {
+				return g.wrap(res[0], g.fn.Signature.Results().At(0).Type())
+			}
+		}
+		if strings.HasPrefix(x.Name, "result") {
+			var k int
+			if _, err := fmt.Sscanf(x.Name, "result%d", &k); err == nil && k < len(res) {
+				return g.wrap(res[k], g.fn.Signature.Results().At(k).Type())
+			}
+		}
+		for i := 0; i < g.fn.Signature.Results().Len(); i++ {
+			if g.fn.Signature.Results().At(i).Name() == x.Name && x.Name != "" {
+				return g.wrap(res[i], g.fn.Signature.Results().At(i).Type())
+			}
+		}
+		for _, p := range g.fn.Params {
+			if p.Name() == x.Name {
+				return g.wrap(x.Name, p.Type())
+			}
+		}
+		if obj := g.pkg.Scope().Lookup(x.Name); obj != nil {
+			switch obj.(type) {
+			case *types.Const, *types.Var:
+				return g.wrap(x.Name, obj.Type())
+			}
+		}
+		g.fail = true
+		return "false"
+	case *ESel:
+		// field path from a parameter
+		t := g.typeOf(x)
+		if t == nil {
+			g.fail = true
+			return "false"
+		}
+		return g.wrap(g.plainPath(x, subst), t)
+	case *EUnary:
+		switch x.Op {
+		case "!":
+			return "!(" + g.goExpr(x.X, subst, recvName, res) + ")"
+		case "-":
+			return "-(" + g.goExpr(x.X, subst, recvName, res) + ")"
+		}
+	case *EBinary:
+		a := g.goExpr(x.X, subst, recvName, res)
+		c := g.goExpr(x.Y, subst, recvName, res)
+		switch x.Op {
+		case "==>":
+			return "(!(" + a + ") || (" + c + "))"
+		case "<==>":
+			return "((" + a + ") == (" + c + "))"
+		case "&&", "||", "==", "!=", "<", "<=", ">", ">=", "+", "-", "*", "/", "%":
+			return "(" + a + " " + x.Op + " " + c + ")"
+		}
+	case *ECall:
+		id, _ := x.Fun.(*EIdent)
+		if id == nil {
+			break
+		}
+		switch id.Name {
+		case "old":
+			if len(x.Args) == 1 {
+				inner := g.goExpr(x.Args[0], subst, recvName, nil) // results are not visible in old(...)
+				if g.fail {
+					return "false"
+				}
+				g.nold++
+				n := fmt.Sprintf("old%d", g.nold)
+				g.olds = append(g.olds, fmt.Sprintf("\t%s := %s\n", n, inner))
+				return n
+			}
+		case "ite":
+			if len(x.Args) == 3 {
+				return "govcIte(" + g.goExpr(x.Args[0], subst, recvName, res) + ", " + g.goExpr(x.Args[1], subst, recvName, res) + ", " + g.goExpr(x.Args[2], subst, recvName, res) + ")"
+			}
+		}
+		if p, ok := g.sp.Preds[g.ri.specPkg+"."+id.Name]; ok && len(p.Params) == len(x.Args) {
+			ns := map[string]Expr{}
+			for i, prm := range p.Params {
+				// substitute arguments (already closed under the caller's substitution)
+				ns[prm.Name] = substExpr(x.Args[i], subst)
+			}
+			return g.goExpr(p.Body, ns, recvName, res)
+		}
+	}
+	g.fail = true
+	return "false"
+}
+
+func (g *replayGen) wrap(goText string, t types.Type) string {
+	if isI, _ := basicScalar(t); isI {
+		return "int64(" + goText + ")"
+	}
+	return goText
+}
+
+func (g *replayGen) plainPath(x Expr, subst map[string]Expr) string {
+	switch x := x.(type) {
+	case *EIdent:
+		if e, ok := subst[x.Name]; ok {
+			return g.plainPath(e, map[string]Expr{})
+		}
+		return x.Name
+	case *ESel:
+		return g.plainPath(x.X, subst) + "." + x.Sel
+	}
+	g.fail = true
+	return "_"
+}
+
+func (g *replayGen) typeOf(x Expr) types.Type {
+	switch x := x.(type) {
+	case *EIdent:
+		for _, p := range g.fn.Params {
+			if p.Name() == x.Name {
+				return p.Type()
+			}
+		}
+		return nil
+	case *ESel:
+		bt := g.typeOf(x.X)
+		if bt == nil {
+			return nil
+		}
+		obj, _, _ := types.LookupFieldOrMethod(bt, true, g.pkg, x.Sel)
+		if v, ok := obj.(*types.Var); ok {
+			return v.Type()
+		}
+	}
+	return nil
+}
+
+func substExpr(x Expr, subst map[string]Expr) Expr {
+	if len(subst) == 0 {
+		return x
+	}
+	switch x := x.(type) {
+	case *EIdent:
+		if e, ok := subst[x.Name]; ok {
+			return e
+		}
+		return x
+	case *EUnary:
+		return &EUnary{x.Op, substExpr(x.X, subst)}
+	case *EBinary:
+		return &EBinary{x.Op, substExpr(x.X, subst), substExpr(x.Y, subst)}
+	case *ECall:
+		var as []Expr
+		for _, a := range x.Args {
+			as = append(as, substExpr(a, subst))
+		}
+		return &ECall{x.Fun, as}
+	case *ESel:
+		return &ESel{substExpr(x.X, subst), x.Sel}
+	case *EIndex:
+		return &EIndex{substExpr(x.X, subst), substExpr(x.I, subst)}
+	}
+	return x
+}
+
+// evalInModel asks the solver for the values of the given terms in a model of the query.
+func evalInModel(query string, terms []string) (map[string]string, bool) {
+	vals := map[string]string{}
+	if len(terms) == 0 {
+		return vals, true
+	}
+	q := query + "(get-value (" + strings.Join(terms, " ") + "))\n"
+	res := solveWith("z3-new", "replay.eval", q, 10)
+	if res.Status != "sat" {
+		res = solveWith("z3", "replay.eval", q, 10)
+	}
+	if res.Status != "sat" {
+		return nil, false
+	}
+	raw := res.Raw
+	k := strings.LastIndex(raw, "((")
+	if k < 0 {
+		return nil, false
+	}
+	body := raw[k+1:]
+	// pairs "(term value)" in order
+	pos := 0
+	for _, t := range terms {
+		i := strings.Index(body[pos:], "("+t+" ")
+		if i < 0 {
+			return nil, false
+		}
+		i += pos + len(t) + 2
+		// value: an atom or a parenthesised term
+		j := i
+		if body[j] == '(' {
+			depth := 0
+			for ; j < len(body); j++ {
+				if body[j] == '(' {
+					depth++
+				} else if body[j] == ')' {
+					depth--
+					if depth == 0 {
+						j++
+						break
+					}
+				}
+			}
+		} else {
+			for j < len(body) && body[j] != ')' && body[j] != ' ' && body[j] != '\n' {
+				j++
+			}
+		}
+		vals[t] = strings.TrimSpace(body[i:j])
+		pos = j
+	}
+	return vals, true
+}
+
+// parseSMTInt reads an SMT-LIB integer value: 5, (- 5).
+func parseSMTInt(v string) (*big.Int, bool) {
+	v = strings.TrimSpace(v)
+	neg := false
+	if strings.HasPrefix(v, "(-") && strings.HasSuffix(v, ")") {
+		neg = true
+		v = strings.TrimSpace(v[2 : len(v)-1])
+	}
+	n, ok := new(big.Int).SetString(v, 10)
+	if !ok {
+		return nil, false
+	}
+	if neg {
+		n.Neg(n)
+	}
+	return n, true
 }
